@@ -56,7 +56,7 @@ func (prop) Run(t *testing.T, s *sim.Sim, res *runner.Result) {
 	var fn *simfn.Transport
 	xrworld.Run(s, res, xrworld.Hooks{
 		Opts:   func(t *sim.Tape) xrworld.Opts { lag := t.Next(2) == 1; return xrworld.Opts{FnFaults: true, LagComposed: lag, LagManual: lag && t.Next(2) == 1} },
-		Params: xrworld.DrawParams{Fatal: true, Requirements: true},
+		Params: xrworld.DrawParams{Fatal: true, Requirements: true, Anonymous: true},
 		Faults: []sim.Outcome{sim.ErrBefore, sim.ErrAfter, sim.Conflict, sim.Stale},
 		Setup: func(w *xrworld.W, wl *xrworld.Workload) error {
 			ctx := context.Background()
@@ -265,6 +265,17 @@ func judge(w *xrworld.W, fn *simfn.Transport, key types.NamespacedName, t *sim.T
 		}
 	}
 
+	// P&T: what a template composes is also recognisable by its content (the
+	// workload's bases carry spec.tag), whatever its name or annotation says
+	desiredTags := map[string]bool{}
+	if !pipeline && rev != nil && desired != nil {
+		tmpls, _, _ := unstructured.NestedSlice(rev, "spec", "resources")
+		for _, tm := range tmpls {
+			if tag, _, _ := unstructured.NestedString(tm.(map[string]any), "base", "spec", "tag"); tag != "" {
+				desiredTags[tag] = true
+			}
+		}
+	}
 	// ---- R3: a still-desired resource is never deleted (or stripped of its labels)
 	deleted := map[string]bool{}
 	for _, e := range mine {
@@ -275,6 +286,9 @@ func judge(w *xrworld.W, fn *simfn.Transport, key types.NamespacedName, t *sim.T
 		rn := bu.GetAnnotations()["crossplane.io/composition-resource-name"]
 		if e.Verb == "delete" && e.Err == nil {
 			deleted[e.Key.String()] = true
+			if tag, _, _ := unstructured.NestedString(e.Before, "spec", "tag"); desiredTags[tag] && controlledBy(bu, xrUID) && failure == "" {
+				w.S.Violate("C03/deleted-still-desired/by-template-content", fmt.Sprintf("reconcile %s deleted %s although the revision it composed from still has the template that composes it (spec.tag %q)", t.Label, e.Key, tag))
+			}
 			if desired != nil && desired[rn] && controlledBy(bu, xrUID) {
 				w.S.Violate("C03/deleted-still-desired", fmt.Sprintf("reconcile %s deleted %s (resource %q) although it is in the final desired state", t.Label, e.Key, rn))
 			}
